@@ -3,6 +3,8 @@
 import ast
 
 from ..astutil import call_attr, call_recv, calls_in, dotted_in, norm, param_names, walk_own
+from ..astutil import call_name as call_name_
+from ..cfg import build_cfg as _bcfg37
 from ..cfg import build_cfg
 from ..rules import calling, fn_cfg, need
 from ..selftest import Mutant
@@ -30,6 +32,7 @@ R6 whatever a method writes to packed-refs is the cached view get_packed_refs() 
 on every normal path after the write (the value in force for the next conditional update is read through the cache).
 R7 a method that rewrites packed-refs has no way out that skips (re)reading packed-refs first.
 R8 (fourth round) remove_if_equals passes self._remove_packed_ref(name) on every path to `return True`.
+R9 get_packed_refs: no path from the header sniff `next(iter(f))` to the plain `read_packed_refs(f)` avoids `f.seek(0)`.
 Does not decide: atomicity between the read and the write (no lock file on arbitrary transports).
 """
 ASSUMPTIONS = ["dulwich RefsContainer semantics: ZERO_SHA stands for an absent ref in comparisons"]
@@ -348,10 +351,20 @@ def run(ctx):
     need(wrm, okret, "return True")
     skip = sorted(set(okret) & grm.reach([grm.entry], avoid=set(rp), include_src=True))
     ctx.check("R8-delete-removes-packed-entry", wrm, not skip, "every path to `return True` passes self._remove_packed_ref(name) — whether or not a loose file existed", message="remove_if_equals reports success on a path that does not remove the packed-refs entry (only when no loose file existed?): a ref that is both loose and packed — the normal state after `git pack-refs` and a later move of the ref — is half deleted and reappears at its old packed value; a tag dropped by uncommit comes back")
+    # ---- R9: the line read to sniff the packed-refs header is given back before a header-less file is parsed -------------
+    fpr = repo.func(TG, "TransportRefsContainer.get_packed_refs")
+    gpr = _bcfg37(fpr)
+    sniff = [n.id for n in gpr.nodes if n.ast is not None and any(call_name_(c) == "next" for c in n.calls())]
+    plain = [n.id for n in gpr.nodes if n.ast is not None and any(call_name_(c) == "read_packed_refs" for c in n.calls())]
+    seeks = [n.id for n in gpr.nodes if n.ast is not None and any(call_attr(c) == "seek" and c.args and norm(c.args[0]) == "0" for c in n.calls())]
+    ctx.require(len(sniff) == 1 and bool(plain), f"{TG}:TransportRefsContainer.get_packed_refs: header sniff (next(iter(f))) or plain reader (read_packed_refs) not found")
+    unre = sorted(gpr.reach(sniff, avoid=set(seeks)) & set(plain))
+    ctx.check("R9-packed-refs-sniff-rewound", f"{TG}:TransportRefsContainer.get_packed_refs", not unre, "between the header sniff and the plain read_packed_refs() the file is rewound (a header-less packed-refs file starts with a ref)", construct=gpr.nodes[unre[0]].text() if unre else "", message="get_packed_refs consumes the first line to look for the '# pack-refs' header and parses the rest with read_packed_refs() without f.seek(0): in a packed-refs file without a header line (valid) the first ref is never seen — add_if_new overwrites it and returns True, set_if_equals(name, ZERO_SHA, x) succeeds although the ref exists")
 
 
 _FIX_SET = "        if old_ref is not None:\n            orig_ref = self.read_loose_ref(realname)\n            if orig_ref is None:\n                orig_ref = self.get_packed_refs().get(realname, ZERO_SHA)\n            if orig_ref != old_ref:\n                return False\n"
 MUTANTS = [
+    Mutant("packed-refs sniff not rewound for header-less files", TG, "                else:\n                    f.seek(0)\n                    for sha, name in read_packed_refs(f):\n", "                else:\n                    for sha, name in read_packed_refs(f):\n", expect="R9-packed-refs-sniff-rewound"),
     Mutant("packed entry removed only when no loose file existed", TG, "        with contextlib.suppress(NoSuchFile):\n            transport.delete(urlutils.quote_from_bytes(name))\n        self._remove_packed_ref(name)\n        return True\n", "        try:\n            transport.delete(urlutils.quote_from_bytes(name))\n        except NoSuchFile:\n            self._remove_packed_ref(name)\n        return True\n", expect="R8-delete-removes-packed-entry"),
     Mutant("packed-refs rewritten from the cached view", TG, "        self._packed_refs = None\n        self.get_packed_refs()\n\n        if name not in self._packed_refs:\n            return\n", "        if name not in self.get_packed_refs():\n            return\n", expect="R7-packed-rewrite-reads-state"),
     Mutant("add_if_new overwrites refs whose symref chain cannot be resolved", TG, "        except (KeyError, IndexError):\n            realname = name\n        self._check_refname(realname)\n        if realname == b\"HEAD\":", "        except (KeyError, IndexError, SymrefLoop):\n            realname = name\n        self._check_refname(realname)\n        if realname == b\"HEAD\":", expect="R2-add-if-new"),
